@@ -435,6 +435,14 @@ def rule_cfg_export(ctx):
                     else:
                         b = TY.resolve(fn, segs[1]["s"], segs[1]["span"][0])
                         names = string_values(fn, b["init"]) if b and b.get("init") is not None else None
+                        if names is None and b is not None and rel.startswith("impl/src/fmt/") and b.get("init") is not None:
+                            # an identifier built from a *parameter* of a helper in the fmt derives (`format_ident!("{trait_name}")`
+                            # with `trait_name` handed in per placeholder): any of the nine formatting traits
+                            mi = re.search(r'format_ident!\("\{(\w+)\}"', A.render(b["init"])) or re.search(r'format_ident!\("\{\}",(\w+)[,)]', A.render(b["init"]))
+                            if mi and fn.name != "expand":
+                                pb = TY.resolve(fn, mi.group(1), segs[1]["span"][0])
+                                if pb is not None and pb["kind"] in ("param", "closure"):
+                                    names = {"Binary", "Debug", "Display", "LowerExp", "LowerHex", "Octal", "Pointer", "UpperExp", "UpperHex"}
                         if names is None and b is not None:
                             # `trait_ident` built from the derive's own trait name: the derives registered for this file
                             modname = rel[len("impl/src/") : -3].replace("/mod", "").replace("/", "::")
